@@ -342,7 +342,12 @@ def ptr(cx, e, depth=0):
                 return (pb, po + lin(cx, args[1], depth + 1))
             if leaf in ("cast", "cast_mut", "cast_const", "as_ptr", "new_unchecked", "as_mut_ptr", "as_non_null_ptr"):
                 return ptr(cx, args[0], depth + 1)
-        if n in ("core::ptr::from_ref", "core::ptr::from_mut", "core::ptr::non_null::NonNull::<T>::from_ref", "core::ptr::non_null::NonNull::<T>::from_mut") and args:
+        if (n in ("core::ptr::from_ref", "core::ptr::from_mut", "core::ptr::non_null::NonNull::<T>::from_ref", "core::ptr::non_null::NonNull::<T>::from_mut")
+                or re.match(r"^<core::ptr::non_null::NonNull<T> as core::convert::From<&(mut )?T>>::from$", n)) and args:
+            aty = (t.get("arg_tys") or [""])[0]
+            if "str" in aty or "[" in aty:
+                v = view(cx, args[0], depth + 1)      # a pointer to a slice / str: where that view starts
+                return (v[0], v[1])
             return ptr(cx, args[0], depth + 1)
         key = t.get("local_key")
         F = b.facts
